@@ -139,7 +139,7 @@ def jobs(tier, seed):
                 dd["E1LO"], dd["E1HI"] = e1
             if srt == 1:
                 dd["SORTED"] = 1
-            J.append(Job("xor.plan%s@%s" % (sfx, tag), group=grp, props=["C06"] + (["C15"] if grp == "xor.plan.le2" else []), layer="L2", strength=strength, bound=bound,
+            J.append(Job("xor.plan%s@%s" % (sfx, tag), group=grp, props=["C06"] + (["C15"] if grp == "xor.plan.mem" else []), layer="L2", strength=strength, bound=bound,
                          title=("flat_xor_hd_min_fragments/xor_hd_fragments_needed: EVERY request list R and exclude list X (all orders, all splits) with %d<=|R|+|X|<=%d and first index in [%d,%d]: %s" % (
                                 lmin, lmax, lo, hi, "succeeds; answer -1 terminated, distinct, in range, disjoint from R and X, spans every requested row over GF(2)" if lmax < hd
                                 else "an error or a correct answer, never a wrong list")),
